@@ -203,6 +203,7 @@ func (c *Client) HandlePresence(p stanza.Presence, r xmlstream.TokenReadEncoder)
 	selectJoin:
 		select {
 		case c := <-channel.join:
+			verifYield("presence.handoff", p.From.String())
 			select {
 			case c.j <- p.From:
 				return nil
@@ -219,6 +220,7 @@ func (c *Client) HandlePresence(p stanza.Presence, r xmlstream.TokenReadEncoder)
 		}
 	case stanza.UnavailablePresence:
 		delete(c.managed, channel.addr.String())
+		verifYield("presence.depart", p.From.String())
 		select {
 		case channel.depart <- struct{}{}:
 		default:
